@@ -884,7 +884,7 @@ class Mrc(McrBase):
     "mem",
     "ADDI32(reg, CONSTI32)",
     size=0,
-    condition=lambda t: t[1].value < 256,
+    condition=lambda t: t[1].value in range(-255, 256),
 )
 def pattern_mem_reg_offset(context, tree, c0):
     offset = tree.children[0].children[1].value
@@ -902,6 +902,25 @@ def pattern_mem_reg(context, tree, c0):
     return c0, 0
 
 
+# Memory operand of ldrsb, ldrh, ldrsh and strh: the offset has 8 bits.
+@arm_isa.pattern(
+    "mem8",
+    "FPRELU32",
+    size=0,
+    cycles=0,
+    energy=0,
+    condition=lambda t: t.value.offset in range(-255, 256),
+)
+def pattern_mem8_fprel32(context, tree):
+    offset = tree.value.offset
+    return R11, offset
+
+
+@arm_isa.pattern("mem8", "reg", size=0, cycles=0, energy=0)
+def pattern_mem8_reg(context, tree, c0):
+    return c0, 0
+
+
 @arm_isa.pattern("stm", "STRI32(mem, reg)", size=4)
 @arm_isa.pattern("stm", "STRU32(mem, reg)", size=4)
 def pattern_str32(self, tree, c0, c1):
@@ -909,8 +928,8 @@ def pattern_str32(self, tree, c0, c1):
     self.emit(Str1(c1, base_reg, offset))
 
 
-@arm_isa.pattern("stm", "STRI16(mem, reg)", size=4)
-@arm_isa.pattern("stm", "STRU16(mem, reg)", size=4)
+@arm_isa.pattern("stm", "STRI16(mem8, reg)", size=4)
+@arm_isa.pattern("stm", "STRU16(mem8, reg)", size=4)
 def pattern_str16(self, tree, c0, c1):
     base_reg, offset = c0
     self.emit(Strh(c1, base_reg, offset))
@@ -1219,7 +1238,7 @@ def pattern_fprel32(context, tree):
     return d
 
 
-@arm_isa.pattern("reg", "LDRI8(mem)", size=4)
+@arm_isa.pattern("reg", "LDRI8(mem8)", size=4)
 def pattern_ldr_i8(context, tree, c0):
     d = context.new_reg(ArmRegister)
     base_reg, offset = c0
@@ -1235,7 +1254,7 @@ def pattern_ldr_u8(context, tree, c0):
     return d
 
 
-@arm_isa.pattern("reg", "LDRI16(mem)", size=4, energy=8)
+@arm_isa.pattern("reg", "LDRI16(mem8)", size=4, energy=8)
 def pattern_ldr_i16(context, tree, c0):
     d = context.new_reg(ArmRegister)
     base_reg, offset = c0
@@ -1243,7 +1262,7 @@ def pattern_ldr_i16(context, tree, c0):
     return d
 
 
-@arm_isa.pattern("reg", "LDRU16(mem)", size=4, energy=8)
+@arm_isa.pattern("reg", "LDRU16(mem8)", size=4, energy=8)
 def pattern_ldr_u16(context, tree, c0):
     d = context.new_reg(ArmRegister)
     base_reg, offset = c0
